@@ -126,6 +126,13 @@ func check(c Case, o *vf.Obs) error {
 		}
 	}
 	o.Class("format_" + f.Format)
+	extMethod := false
+	for _, e := range f.Entries() {
+		extMethod = extMethod || ag.ExtensionMethod(e.Method)
+	}
+	o.ClassIf(extMethod, "extension_method")
+	o.ClassIf(extMethod && f.Format == "jsonline", "extension_method_jsonline")
+	o.ClassIf(extMethod && f.Format == "raw", "extension_method_raw")
 	o.ClassIf(f.Layout.NoFinalNL, "no_final_newline")
 	o.ClassIf(f.Layout.CRLF, "crlf")
 	o.ClassIf(f.Layout.Pad, "padded_lines")
